@@ -174,6 +174,185 @@ B=[
 	mw.wMu.RUnlock()
 
 	last, ok = v.(*api.Metric)'''),
+ ('B34-pinhandler-early-return','api/rest/restapi.go',
+  '''	if pin := api.parseCidOrError(w, r); pin != nil {
+		logger.Debugf("rest api pinHandler: %s", pin.Cid)
+		// span.AddAttributes(trace.StringAttribute("cid", pin.Cid))
+		var pinObj types.Pin
+		err := api.rpcClient.CallContext(
+			r.Context(),
+			"",
+			"Cluster",
+			"Pin",
+			pin,
+			&pinObj,
+		)
+		api.sendResponse(w, autoStatus, err, pinObj)
+		logger.Debug("rest api pinHandler done")
+	}
+}''','''	pin := api.parseCidOrError(w, r)
+	if pin == nil {
+		return
+	}
+	logger.Debugf("rest api pinHandler: %s", pin.Cid)
+	var pinObj types.Pin
+	err := api.rpcClient.CallContext(
+		r.Context(),
+		"",
+		"Cluster",
+		"Pin",
+		pin,
+		&pinObj,
+	)
+	api.sendResponse(w, autoStatus, err, pinObj)
+	logger.Debug("rest api pinHandler done")
+}'''),
+ ('B35-clean-explicit-unlock','pintracker/optracker/operationtracker.go',
+  '''	opt.mu.Lock()
+	defer opt.mu.Unlock()
+	op2, ok := opt.operations[op.Cid()]
+	if ok && op == op2 { // same pointer
+		delete(opt.operations, op.Cid())
+	}
+}''','''	opt.mu.Lock()
+	op2, ok := opt.operations[op.Cid()]
+	if !ok || op != op2 { // not the same pointer
+		opt.mu.Unlock()
+		return
+	}
+	delete(opt.operations, op.Cid())
+	opt.mu.Unlock()
+}'''),
+ ('B36-alert-threshold-restructured','monitor/metrics/checker.go',
+  '''	if failedMetrics[metricName] >= MaxAlertThreshold {
+		mc.metrics.RemovePeerMetrics(pid, metricName)
+		delete(failedMetrics, metricName)
+		if len(mc.failedPeers[pid]) == 0 {
+			delete(mc.failedPeers, pid)
+		}
+		return nil
+	}
+
+	failedMetrics[metricName]++
+''','''	if n := failedMetrics[metricName]; n >= MaxAlertThreshold {
+		mc.metrics.RemovePeerMetrics(pid, metricName)
+		delete(failedMetrics, metricName)
+		if len(failedMetrics) == 0 {
+			delete(mc.failedPeers, pid)
+		}
+		return nil
+	}
+
+	failedMetrics[metricName] = failedMetrics[metricName] + 1
+'''),
+ ('B37-statusall-index-loop','pintracker/stateless/stateless.go',
+  '''	for _, infop := range spt.optracker.GetAll(ctx) {
+		pininfos[infop.Cid] = infop
+	}
+''','''	ops := spt.optracker.GetAll(ctx)
+	for i := range ops {
+		pininfos[ops[i].Cid] = ops[i]
+	}
+'''),
+ ('B38-pushinformer-else-form','cluster.go',
+  '''			// retry sooner
+			timer.Reset(metric.GetTTL() / 4)
+			continue
+		}
+
+		retries = 0
+		// send metric again in TTL/2
+		timer.Reset(metric.GetTTL() / 2)
+	}''','''			// retry sooner
+			timer.Reset(metric.GetTTL() / 4)
+		} else {
+			retries = 0
+			// send metric again in TTL/2
+			timer.Reset(metric.GetTTL() / 2)
+		}
+	}'''),
+ ('B39-setuprepl-reordered','cluster.go',
+  '''	if rplMin == 0 {
+		rplMin = c.config.ReplicationFactorMin
+		pin.ReplicationFactorMin = rplMin
+	}
+	if rplMax == 0 {
+		rplMax = c.config.ReplicationFactorMax
+		pin.ReplicationFactorMax = rplMax
+	}
+''','''	if rplMax == 0 {
+		rplMax = c.config.ReplicationFactorMax
+	}
+	if rplMin == 0 {
+		rplMin = c.config.ReplicationFactorMin
+	}
+	pin.ReplicationFactorMin, pin.ReplicationFactorMax = rplMin, rplMax
+'''),
+ ('B40-applyjson-reset-after-name','consensus/crdt/config.go',
+  '''	config.SetIfNotDefault(jcfg.ClusterName, &cfg.ClusterName)
+
+	// Whenever we parse JSON, TrustAll is false unless an '*' peer exists
+	cfg.TrustAll = false
+	cfg.TrustedPeers = []peer.ID{}
+''','''	// Whenever we parse JSON, TrustAll is false unless an '*' peer exists
+	cfg.TrustedPeers = []peer.ID{}
+	cfg.TrustAll = false
+	config.SetIfNotDefault(jcfg.ClusterName, &cfg.ClusterName)
+'''),
+ ('B41-protounmarshal-append','api/types.go',
+  '''	origins := make([]multiaddr.Multiaddr, len(pbOrigins))
+	for i, orig := range pbOrigins {
+		maOrig, err := multiaddr.NewMultiaddrBytes(orig)
+		if err != nil {
+			return err
+		}
+		origins[i] = maOrig
+	}''','''	origins := make([]multiaddr.Multiaddr, 0, len(pbOrigins))
+	for _, orig := range pbOrigins {
+		maOrig, err := multiaddr.NewMultiaddrBytes(orig)
+		if err != nil {
+			return err
+		}
+		origins = append(origins, maOrig)
+	}'''),
+ ('B42-enqueue-queue-helper','pintracker/stateless/stateless.go',
+  '''	var ch chan *optracker.Operation
+
+	switch typ {
+	case optracker.OperationPin:
+		ch = spt.pinCh
+	case optracker.OperationUnpin:
+		ch = spt.unpinCh
+	}
+
+	select {
+	case ch <- op:
+	default:''','''	ch := spt.pinCh
+	if typ == optracker.OperationUnpin {
+		ch = spt.unpinCh
+	} else if typ != optracker.OperationPin {
+		ch = nil
+	}
+
+	select {
+	case ch <- op:
+	default:'''),
+ ('B43-unpin-meta-helper','cluster.go',
+  '''	case api.MetaType:
+		// Unpin cluster dag and referenced shards
+		err := c.unpinClusterDag(pin)
+		if err != nil {
+			return pin, err
+		}
+		return pin, c.consensus.LogUnpin(ctx, pin)
+	case api.ClusterDAGType:''','''	case api.MetaType:
+		// Unpin cluster dag and referenced shards
+		if err := c.unpinClusterDag(pin); err != nil {
+			return pin, err
+		}
+		err = c.consensus.LogUnpin(ctx, pin)
+		return pin, err
+	case api.ClusterDAGType:'''),
 ]
 os.makedirs(OUT,exist_ok=True)
 n=0
